@@ -1,5 +1,7 @@
-(* C31: the three recorded defects, exhibited on the model by evaluation.  Each witness is
-   also a replay line of known_findings.d/C31.json and is run on the real code by ./check. *)
+(* C31: the recorded defect (class 3), exhibited on the model by evaluation; its witness is
+   also a replay line of known_findings.d/C31.json and is run on the real code by ./check.
+   The former classes 1 and 2 (repaired in /repo by f7ee439 and b5de181) are kept as
+   historical witnesses: on the repaired model they round-trip. *)
 From Coq Require Import ZArith List Bool.
 From TV Require Import Lib.MachInt Model.Record.
 Import ListNotations.
@@ -7,27 +9,6 @@ Open Scope Z_scope.
 
 Definition roundtrip_ok (s : schema) (row : list value) : Prop :=
   exists bytes, build_fresh s row = Ok bytes /\ extract s bytes = Ok row.
-
-(* class 1: a lone empty string comes back as NULL *)
-Lemma refuted_empty_var_only_l :
-  schema_ok [TText] = true /\ fits_row [TText] [VText []] = true /\
-  known_class [TText] [VText []] = 1 /\
-  build_fresh [TText] [VText []] = Ok [5; 0; 0; 0; 0] /\
-  extract [TText] [5; 0; 0; 0; 0] = Ok [VNull].
-Proof. vm_compute. repeat split. Qed.
-
-(* class 2: 1.5 in a Float4 column followed by an Int8 column reads back as 0.0;
-   alone in the row the write panics *)
-Lemma refuted_float4_l :
-  schema_ok [TFloat4; TInt8] = true /\
-  fits_row [TFloat4; TInt8] [VFloat 4609434218613702656; VInt 3] = true /\
-  known_class [TFloat4; TInt8] [VFloat 4609434218613702656; VInt 3] = 2 /\
-  build_fresh [TFloat4; TInt8] [VFloat 4609434218613702656; VInt 3]
-    = Ok [3; 0; 0; 0; 0; 0; 0; 3; 0; 0; 0; 0; 0; 0; 0] /\
-  extract [TFloat4; TInt8] [3; 0; 0; 0; 0; 0; 0; 3; 0; 0; 0; 0; 0; 0; 0] = Ok [VFloat 0; VInt 3] /\
-  fits_row [TFloat4] [VFloat 4609434218613702656] = true /\
-  build_fresh [TFloat4] [VFloat 4609434218613702656] = Panic.
-Proof. vm_compute. repeat split. Qed.
 
 (* class 3: a 17-byte blob starting 0xFE comes back as a ToastPointer *)
 Definition toast_like : list Z := 254 :: repeat 1 16.
@@ -38,18 +19,32 @@ Lemma refuted_toast_blob_l :
   extract [TBlob] ([5; 0; 0; 17; 0] ++ toast_like) = Ok [VToast toast_like].
 Proof. vm_compute. repeat split. Qed.
 
-Ltac refute :=
-  split; [vm_compute; reflexivity|]; split; [vm_compute; reflexivity|]; split; [vm_compute; reflexivity|];
-  let b := fresh "b" in let Hb := fresh "Hb" in let Hx := fresh "Hx" in
-  intros [b [Hb Hx]]; vm_compute in Hb; inversion Hb; subst b; vm_compute in Hx; discriminate Hx.
-
 Lemma roundtrip_refuted_l :
-  (exists s row, schema_ok s = true /\ fits_row s row = true /\ known_class s row = 1 /\ ~ roundtrip_ok s row) /\
-  (exists s row, schema_ok s = true /\ fits_row s row = true /\ known_class s row = 2 /\ ~ roundtrip_ok s row) /\
-  (exists s row, schema_ok s = true /\ fits_row s row = true /\ known_class s row = 3 /\ ~ roundtrip_ok s row).
+  exists s row, schema_ok s = true /\ fits_row s row = true /\ known_class s row = 3 /\ ~ roundtrip_ok s row.
 Proof.
-  split; [|split].
-  - exists [TText], [VText []]. refute.
-  - exists [TFloat4; TInt8], [VFloat 4609434218613702656; VInt 3]. refute.
-  - exists [TBlob], [VBlob toast_like]. refute.
+  exists [TBlob], [VBlob toast_like].
+  split; [vm_compute; reflexivity|]. split; [vm_compute; reflexivity|]. split; [vm_compute; reflexivity|].
+  intros [b [Hb Hx]]. vm_compute in Hb. inversion Hb; subst b. vm_compute in Hx. discriminate Hx.
 Qed.
+
+(* historical (F-C31-1, fixed by f7ee439): a lone empty string used to come back as NULL *)
+Lemma fixed_empty_var_only_l :
+  fits_row [TText] [VText []] = true /\ known_class [TText] [VText []] = 0 /\
+  build_fresh [TText] [VText []] = Ok [5; 0; 0; 0; 0] /\
+  extract [TText] [5; 0; 0; 0; 0] = Ok [VText []].
+Proof. vm_compute. repeat split. Qed.
+
+(* historical (F-C31-2, fixed by b5de181): 1.5 in a Float4 column used to read back as 0.0, and
+   to panic when alone in the row; now it is stored as the f32 0x3FC00000 *)
+Lemma fixed_float4_l :
+  fits_row [TFloat4; TInt8] [VFloat 4609434218613702656; VInt 3] = true /\
+  known_class [TFloat4; TInt8] [VFloat 4609434218613702656; VInt 3] = 0 /\
+  build_fresh [TFloat4; TInt8] [VFloat 4609434218613702656; VInt 3]
+    = Ok [3; 0; 0; 0; 0; 192; 63; 3; 0; 0; 0; 0; 0; 0; 0] /\
+  extract [TFloat4; TInt8] [3; 0; 0; 0; 0; 192; 63; 3; 0; 0; 0; 0; 0; 0; 0]
+    = Ok [VFloat 4609434218613702656; VInt 3] /\
+  build_fresh [TFloat4] [VFloat 4609434218613702656] = Ok [3; 0; 0; 0; 0; 192; 63] /\
+  (* a value that is not an f32 does not fit: 0.1 is rounded by the store *)
+  fits_row [TFloat4] [VFloat 4591870180066957722] = false /\
+  extract [TFloat4] [3; 0; 0; 205; 204; 204; 61] = Ok [VFloat 4591870180174331904].
+Proof. vm_compute. repeat split. Qed.
